@@ -732,8 +732,9 @@ class Integer(Atomic, CommonMath):
             raise TypeError("invalid constructor datatype")
 
     def encode(self, tag):
-        # rip apart the number
-        data = bytearray(struct.pack('>I', self.value & 0xFFFFFFFF))
+        # rip apart the number, struct.error if it does not fit in 32 bits
+        # (masking it would encode a different value)
+        data = bytearray(struct.pack('>i', self.value))
 
         # reduce the value to the smallest number of bytes, be
         # careful about sign extension
